@@ -28,10 +28,14 @@ package main
 
 import (
 	"bytes"
+	"encoding/hex"
+	"encoding/json"
 	"errors"
 	"fmt"
 	"math"
 	"os"
+	"runtime/debug"
+	"runtime/pprof"
 	"time"
 	"sort"
 	"strings"
@@ -267,10 +271,8 @@ func cmpClass(present bool, v, bound uint64) string {
 	switch {
 	case !present:
 		return "absent"
-	case v == 0 && bound == 0:
-		return "0=bound"
 	case v == 0:
-		return "0"
+		return "present-0"
 	case v < bound:
 		return "<bound"
 	case v == bound:
@@ -303,10 +305,16 @@ func leafKey(fn string, id leafID, c ctxT, got bool) string {
 	case 4:
 		var b uint64
 		fmt.Sscan(id.val, &b)
+		if c.start.present && c.start.v == 0 {
+			return fmt.Sprintf("%s|leaf=invalid_before|start=present-0|got=%v", fn, got)
+		}
 		return fmt.Sprintf("%s|leaf=invalid_before|bound=%s|start=%s|got=%v", fn, boundClass(b), cmpClass(c.start.present, c.start.v, b), got)
 	default:
 		var b uint64
 		fmt.Sscan(id.val, &b)
+		if c.ttl.present && c.ttl.v == 0 {
+			return fmt.Sprintf("%s|leaf=invalid_hereafter|ttl=present-0|got=%v", fn, got)
+		}
 		return fmt.Sprintf("%s|leaf=invalid_hereafter|bound=%s|ttl=%s|got=%v", fn, boundClass(b), cmpClass(c.ttl.present, c.ttl.v, b), got)
 	}
 }
@@ -339,7 +347,7 @@ var chk *vlib.Check
 
 // judge compares got with the reference for (script bytes, ctx) on a layer and reports.
 // tree = verif/space parse of the bytes that were fed to the code under test.
-func judge(fn, layer string, obs *obsTable, sc string, enc []byte, tree *space.Node, c ctxT, got bool, isLeaf bool, variant string) {
+func judge(fn, layer string, era int, slot uint64, obs *obsTable, sc string, enc []byte, tree *space.Node, c ctxT, got bool, isLeaf bool, variant string) {
 	want, err := refEval(tree, c, nil)
 	if err != nil {
 		chk.Internal("reference cannot read own script %s: %v", sc, err)
@@ -354,10 +362,17 @@ func judge(fn, layer string, obs *obsTable, sc string, enc []byte, tree *space.N
 		return
 	}
 	report := func(key, how string) {
+		if _, dup := reportedAt.LoadOrStore(key+"\x00"+layer, true); !dup {
+			layersMu.Lock()
+			layersOf[key] = append(layersOf[key], layer)
+			layersMu.Unlock()
+		}
 		if _, dup := reported.LoadOrStore(key, true); dup {
 			return
 		}
-		replay := map[string]any{"layer": layer, "script": sc, "script_cbor": fmt.Sprintf("%x", enc), "context": c.String(), "got": got, "want": want, "variant": variant}
+		replay := map[string]any{"layer": layer, "era": era, "slot": fmt.Sprint(slot), "script": sc, "script_cbor": fmt.Sprintf("%x", enc), "context": c.String(),
+			"keys": c.keys, "start_present": c.start.present, "start": fmt.Sprint(c.start.v), "ttl_present": c.ttl.present, "ttl": fmt.Sprint(c.ttl.v),
+			"got": got, "want": want, "variant": variant, "is_leaf": isLeaf}
 		v := ""
 		if variant != "" {
 			v = " re-encoded (" + variant + ")"
@@ -385,13 +400,15 @@ func judge(fn, layer string, obs *obsTable, sc string, enc []byte, tree *space.N
 		return
 	}
 	if variant != "" {
-		report(fmt.Sprintf("%s|re-encoded|%s|got=%v", fn, siteClass(tree, variant), got), " (same script in canonical encoding behaves)")
+		report(fmt.Sprintf("%s|re-encoded|%s", fn, siteClass(tree, variant)), " (same script in canonical encoding behaves)")
 		return
 	}
 	report(fmt.Sprintf("%s|combinator|shape=%s|got=%v", fn, shapeOf(tree), got), " (leaves behave, combination does not)")
 }
 
-var reported sync.Map
+var reported, reportedAt sync.Map
+var layersMu sync.Mutex
+var layersOf = map[string][]string{}
 
 var kindNames = []string{"sig", "all", "any", "nofk", "before", "hereafter"}
 
@@ -426,15 +443,21 @@ func siteClass(tree *space.Node, variant string) string {
 		path = append(path, x)
 	}
 	n := tree.At(path)
+	ch := variant[i+1:]
+	for _, f := range []string{"->1B", "->2B", "->4B", "->8B"} {
+		if strings.HasSuffix(ch, f) {
+			ch = strings.TrimSuffix(ch, f) + "->non-minimal"
+		}
+	}
 	if k, ok := looksScript(n); ok {
-		return fmt.Sprintf("hdr-of(%s):%s", k, variant[i+1:])
+		return fmt.Sprintf("hdr-of(%s):%s", k, ch)
 	}
 	if len(path) > 0 {
 		if k, ok := looksScript(tree.At(path[:len(path)-1])); ok {
-			return fmt.Sprintf("field%d-of(%s):%s", path[len(path)-1], k, variant[i+1:])
+			return fmt.Sprintf("field%d-of(%s):%s", path[len(path)-1], k, ch)
 		}
 	}
-	return "other:" + variant[i+1:]
+	return "other:" + ch
 }
 
 func leafNode(id leafID) *space.Node {
@@ -551,7 +574,7 @@ func runE(obs *obsTable, sc script, enc []byte, ctxs []ctxT, slots []uint64, var
 			} else {
 				lc.reject++
 			}
-			judge("NativeScript.Evaluate", "Evaluate", obs, sc.desc, enc, tree, c, got, sc.depth == 0, variant)
+			judge("NativeScript.Evaluate", "Evaluate", 0, slot, obs, sc.desc, enc, tree, c, got, sc.depth == 0, variant)
 		}
 	}
 	return true
@@ -664,7 +687,7 @@ func (f *eraFix) runR(sc script, enc []byte, c ctxT, slot uint64, variant string
 		lc.reject++
 	}
 	// sanity of the driver: the decoded transaction must carry the interval we encoded
-	judge(fn, "rules("+era+")", f.obs, sc.desc, enc, tree, c, got, sc.depth == 0, variant)
+	judge(fn, "rules("+era+")", f.env.Era, slot, f.obs, sc.desc, enc, tree, c, got, sc.depth == 0, variant)
 	return 1
 }
 
@@ -685,6 +708,10 @@ func main() {
 		keySets[ks] = m
 	}
 
+	if c.Replay != "" {
+		replayOne(c)
+		return
+	}
 	// bounds n and interval values
 	boundsSmall := []uint64{0, 5, 10}
 	boundsLeaf := []uint64{0, 5, 10, math.MaxUint64}
@@ -737,6 +764,13 @@ func main() {
 	slots1 := []uint64{7}
 
 	t0 := time.Now()
+	debug.SetGCPercent(400)
+	if p := os.Getenv("VERIF_PPROF"); p != "" {
+		fh, _ := os.Create(p)
+		pprof.StartCPUProfile(fh)
+		defer pprof.StopCPUProfile()
+		go func() { time.Sleep(40 * time.Second); pprof.StopCPUProfile(); fh.Close(); os.Exit(3) }()
+	}
 	phase := func(name string) {
 		if os.Getenv("VERIF_DEBUG") != "" {
 			fmt.Fprintf(os.Stderr, "[%6.1fs] %s\n", time.Since(t0).Seconds(), name)
@@ -856,20 +890,36 @@ func main() {
 			lc.flush()
 		})
 		phase("R " + EraNames[era] + " depth<=1 done")
-		// slot independence on leaves and depth-1 over the small grid
-		vlib.Parallel(len(allD1), func(i int) {
+		// slot independence: the ledger semantics do not read the current slot
+		vlib.Parallel(len(leavesBig), func(i int) {
 			var lc localCount
-			for _, cx := range ctxs {
-				f.runR(allD1[i], allD1[i].enc, cx, 0, "", &lc)
-				f.runR(allD1[i], allD1[i].enc, cx, math.MaxUint64, "", &lc)
+			for _, cx := range ctxsLeaf {
+				f.runR(leavesBig[i], leavesBig[i].enc, cx, 0, "", &lc)
+				f.runR(leavesBig[i], leavesBig[i].enc, cx, math.MaxUint64, "", &lc)
 			}
 			lc.flush()
 		})
-		// depth 2 inside transactions: thorough only, pool with the single bound 5, small interval grid
+		if c.Thorough() {
+			vlib.Parallel(len(depth1Big), func(i int) {
+				var lc localCount
+				for _, cx := range ctxs {
+					f.runR(depth1Big[i], depth1Big[i].enc, cx, 0, "", &lc)
+					f.runR(depth1Big[i], depth1Big[i].enc, cx, math.MaxUint64, "", &lc)
+				}
+				lc.flush()
+			})
+		}
+		// depth 2 inside transactions: thorough only, pool with the single bound 5, interval grid around the bound
 		if c.Thorough() {
 			pool := append(append([]script{}, mkLeaves([]uint64{5})...), mkDepth1(mkLeaves([]uint64{5}))...)
-			iv := []optU{{}, {true, 0}, {true, 4}, {true, 5}, {true, 6}}
-			cx2 := mkCtxs(iv)
+			var cx2 []ctxT
+			for ks := 0; ks < 4; ks++ {
+				for _, st := range []optU{{}, {true, 4}, {true, 5}} {
+					for _, tt := range []optU{{}, {true, 5}, {true, 6}} {
+						cx2 = append(cx2, ctxT{ks, st, tt})
+					}
+				}
+			}
 			n := 6 * kidLists(len(pool))
 			nCh := (n + chunk - 1) / chunk
 			vlib.Parallel(nCh, func(ci int) {
@@ -884,15 +934,31 @@ func main() {
 				lc.flush()
 			})
 			c.Set("layerR_depth2_scripts_per_era", int64(n))
+			c.Set("layerR_depth2_contexts", len(cx2))
 		}
 		phase("R " + EraNames[era] + " slots/depth2 done")
-		// re-encoded scripts inside transactions (depth<=1, d=1, all contexts of the small grid)
-		vlib.Parallel(len(allD1), func(i int) {
+		// re-encoded scripts inside transactions (d=1 on every header of the script), 16 contexts:
+		// key subsets x start in {absent,5} x ttl in {absent,5}. quick: depth<=1 scripts over the
+		// leaves {sig a, before 5, hereafter 5}; thorough: every depth<=1 script.
+		reSet := allD1
+		if !c.Thorough() {
+			lv := []script{mkLeafKey(keyA), mkLeafTime(4, 5), mkLeafTime(5, 5)}
+			reSet = append(append([]script{}, lv...), mkDepth1(lv)...)
+		}
+		var cxRe []ctxT
+		for ks := 0; ks < 4; ks++ {
+			for _, st := range []optU{{}, {true, 5}} {
+				for _, tt := range []optU{{}, {true, 5}} {
+					cxRe = append(cxRe, ctxT{ks, st, tt})
+				}
+			}
+		}
+		vlib.Parallel(len(reSet), func(i int) {
 			var lc localCount
-			s := allD1[i]
+			s := reSet[i]
 			tree := space.Raw(s.enc)
 			space.EnumD1(tree, space.Sites(tree, nil), func(v space.Variant) bool {
-				for _, cx := range ctxs {
+				for _, cx := range cxRe {
 					if f.runR(s, v.Bytes, cx, 7, v.Desc, &lc) == 0 {
 						k := "R-rejected:" + v.Class
 						n, _ := rejR.LoadOrStore(k, new(int64))
@@ -906,6 +972,7 @@ func main() {
 			})
 			lc.flush()
 		})
+		c.Set("layerR_reenc_scripts_per_era", len(reSet))
 	}
 
 	phase("R done")
@@ -918,6 +985,12 @@ func main() {
 	sort.Strings(rk)
 	c.Set("reenc_R_decoder_rejections", rk)
 	c.Set("outcomes", map[string]int64{"script-satisfied": totAccept, "script-not-satisfied": totReject})
+	for k := range layersOf {
+		sort.Strings(layersOf[k])
+	}
+	if len(layersOf) > 0 {
+		c.Set("disagreements_by_key_and_layer", layersOf)
+	}
 	c.Sample(map[string]any{"script": depth1Big[40].desc, "cbor": fmt.Sprintf("%x", depth1Big[40].enc), "hash": fmt.Sprintf("%x", refHash(depth1Big[40].enc))})
 	c.Sample(map[string]any{"script": mkComb(0, kidsByCode(poolD2, 300)).desc})
 	c.Set("rule", "scripts: 10 leaves (sig a, sig b, before/hereafter n, n in {0,5,10,2^64-1}); all/any/m-of (m=0..3) over every child list of length 0..2: depth<=1 complete over the 10 leaves, depth 2 complete over children from leaves+depth-1 scripts with n in "+fmt.Sprint(d2bounds)+
@@ -931,3 +1004,76 @@ func main() {
 }
 
 var totAccept, totReject int64
+
+// replayOne re-runs the single case stored in a replay file (leaf observations are
+// re-established first for the same context so that attribution works the same way).
+func replayOne(c *vlib.Check) {
+	b, err := os.ReadFile(c.Replay)
+	if err != nil {
+		c.Internal("replay: %v", err)
+	}
+	var f struct {
+		Replay struct {
+			Era          int    `json:"era"`
+			Slot         string `json:"slot"`
+			Script       string `json:"script"`
+			ScriptCbor   string `json:"script_cbor"`
+			Keys         int    `json:"keys"`
+			StartPresent bool   `json:"start_present"`
+			Start        string `json:"start"`
+			TtlPresent   bool   `json:"ttl_present"`
+			Ttl          string `json:"ttl"`
+			Variant      string `json:"variant"`
+			IsLeaf       bool   `json:"is_leaf"`
+		} `json:"replay"`
+	}
+	if err := json.Unmarshal(b, &f); err != nil {
+		c.Internal("replay: %v", err)
+	}
+	r := f.Replay
+	enc, err := hex.DecodeString(r.ScriptCbor)
+	if err != nil {
+		c.Internal("replay: %v", err)
+	}
+	var cx ctxT
+	cx.keys = r.Keys
+	cx.start.present, cx.ttl.present = r.StartPresent, r.TtlPresent
+	fmt.Sscan(r.Start, &cx.start.v)
+	fmt.Sscan(r.Ttl, &cx.ttl.v)
+	var slot uint64
+	fmt.Sscan(r.Slot, &slot)
+	tree, err := space.Parse(enc)
+	if err != nil {
+		c.Internal("replay: %v", err)
+	}
+	var ids []leafID
+	leavesOf(tree, &ids)
+	var lc localCount
+	depth := 1
+	if r.IsLeaf {
+		depth = 0
+	}
+	sc := script{desc: r.Script, enc: enc, depth: depth}
+	if r.Era == 0 {
+		obs := &obsTable{m: map[obsKey]bool{}}
+		if !(r.IsLeaf && r.Variant == "") {
+			for _, id := range ids {
+				n := leafNode(id)
+				runE(obs, script{desc: leafName(id), enc: n.Encode()}, n.Encode(), []ctxT{cx}, []uint64{slot}, "", &lc)
+			}
+		}
+		runE(obs, sc, enc, []ctxT{cx}, []uint64{slot}, r.Variant, &lc)
+	} else {
+		fx := newEraFix(r.Era, c.Seed)
+		if !(r.IsLeaf && r.Variant == "") {
+			for _, id := range ids {
+				n := leafNode(id)
+				fx.runR(script{desc: leafName(id), enc: n.Encode()}, n.Encode(), cx, slot, "", &lc)
+			}
+		}
+		fx.runR(sc, enc, cx, slot, r.Variant, &lc)
+	}
+	lc.flush()
+	c.Set("rule", "replay of one stored case")
+	c.Finish()
+}
